@@ -121,6 +121,47 @@ func (s *fileState) hammer(c *ctx, op string, f []string) string {
 		return "stale"
 	}
 	time.Sleep(20 * time.Millisecond)
+	if f[0] == "fpair" {
+		// 2'. no look-ups; pairs of rewrites in quick succession (the second lands while the first is
+		// still being parsed: the files are long), after each pair the table must settle on the LAST one
+		final := "settled"
+		last := B
+		for r := 0; r < ms && final == "settled"; r++ {
+			first, second := A, B
+			if r%2 == 1 {
+				first, second = B, A
+			}
+			write(first)
+			time.Sleep(time.Duration(200+c.rng.Intn(2500)) * time.Microsecond)
+			write(second)
+			last = second
+			want := "pass"
+			if w, _ := expect(second); w != "-" {
+				if ip := net.ParseIP(w); ip != nil {
+					if v6 {
+						want = fmt.Sprintf("iana %s iaid-ok 3600 3600", hx(ip.To16()))
+					} else {
+						want = fmt.Sprintf("yiaddr %s stop", hx(ip.To4()))
+					}
+				}
+			}
+			ok := false
+			for dl := time.Now().Add(4 * time.Second); time.Now().Before(dl); {
+				time.Sleep(3 * time.Millisecond)
+				if current() == want {
+					ok = true
+					break
+				}
+			}
+			if !ok {
+				final = fmt.Sprintf("stale-after-pair-%d", r)
+			}
+		}
+		after := current()
+		res := fmt.Sprintf("%s ; %s ; after:%s ; %s ; last=%s", lineOracle(A), lineOracle(B), after, final, map[bool]string{true: "B", false: "A"}[string(last) == string(B)])
+		c.emit(op, res)
+		return final
+	}
 	// 2. lookups against rewrites
 	const G = 8
 	var stop int32
@@ -230,7 +271,17 @@ func genFileConc(c *ctx) {
 			if c.tier == "thorough" {
 				ms = 600
 			}
-			hist = append(hist, fmt.Sprintf("fhammer %c %s %s %s %d", k, hx(target), hx(a), hx(b), ms))
+			if c.rng.Intn(3) == 0 {
+				// long files (slow to parse), pairs of rewrites in quick succession
+				var sb strings.Builder
+				for j := 0; j < 3000; j++ {
+					sb.WriteString(line(v6, []byte{2, 9, byte(j >> 16), byte(j >> 8), byte(j), 1}, 1+j%9))
+				}
+				long := sb.String()
+				hist = append(hist, fmt.Sprintf("fpair %c %s %s %s %d", k, hx(target), hx([]byte(long+string(a))), hx([]byte(long+string(b))), 6))
+			} else {
+				hist = append(hist, fmt.Sprintf("fhammer %c %s %s %s %d", k, hx(target), hx(a), hx(b), ms))
+			}
 			m := macs[c.rng.Intn(len(macs))]
 			if v6 {
 				hist = append(hist, fmt.Sprintf("fq6 %s 1 0", hx(m)))
